@@ -118,10 +118,11 @@ def case_density(case):
         fn = getattr(m, fname)
         base = np.asarray(fn(kf), dtype=float)
         rt = 1e-13 if analytic else 1e-9  # (the numerical transform of one wave number differs from the one of an array by rounding)
-        r.close(f"{fname}(list of int) == {fname}(float array)", np.asarray(fn(ki), dtype=float), base, rtol=rt, atol=1e-300, **extra)
-        r.close(f"{fname}(integer array) == {fname}(float array)", np.asarray(fn(np.array(ki)), dtype=float), base, rtol=rt, atol=1e-300, **extra)
+        at = 1e-300 if analytic else 1e-9 * float(np.max(np.abs(base)))
+        r.close(f"{fname}(list of int) == {fname}(float array)", np.asarray(fn(ki), dtype=float), base, rtol=rt, atol=at, **extra)
+        r.close(f"{fname}(integer array) == {fname}(float array)", np.asarray(fn(np.array(ki)), dtype=float), base, rtol=rt, atol=at, **extra)
         if d > 1 or fname != "spectral_rad_pdf":
-            r.close(f"{fname}(python int) == {fname}(float array)[i]", [float(np.asarray(fn(k_)).ravel()[0]) for k_ in ki[1:]], base[1:], rtol=rt, atol=1e-300, **extra)
+            r.close(f"{fname}(python int) == {fname}(float array)[i]", [float(np.asarray(fn(k_)).ravel()[0]) for k_ in ki[1:]], base[1:], rtol=rt, atol=at, **extra)
     # normalisation of the radial pdf
     if analytic or True:
         K = (60.0 if not analytic else 2000.0) / unit
@@ -195,6 +196,24 @@ def case_history(case):
         r.eq("has_cdf / has_ppf after an in-place change", [bool(m.has_cdf), bool(m.has_ppf)], [bool(fresh.has_cdf), bool(fresh.has_ppf)], **extra)
         if m.has_cdf:
             r.close("cdf after an in-place change", m.spectral_rad_cdf(k), fresh.spectral_rad_cdf(k), rtol=1e-12, atol=0, **extra)
+    # settings of the numerical transform belong to one model: changing them on one instance does not change
+    # other (earlier or later) default models, and assigning None restores the defaults
+    extra = {"cls": cls, "after": "hankel_kw", "d0": d0, "d1": d1}
+    a = C(dim=d1, **kw) if d1 in cf.valid_dims(cls, 4) else C(dim=d0, **kw)
+    other = C(dim=int(a.dim), **kw)
+    ref = np.asarray(other.spectral_density(k), dtype=float).copy()
+    ref_kw = dict(other.hankel_kw)
+    a.hankel_kw = {"N": 10, "h": 0.05}
+    a.spectral_density(k)
+    r.close("spectral_density of an existing default model unchanged after another model's hankel_kw was set", other.spectral_density(k), ref, rtol=0, atol=0, **extra)
+    later = C(dim=int(a.dim), **kw)
+    r.eq("default hankel_kw of a model created later", dict(later.hankel_kw), ref_kw, **extra)
+    r.close("spectral_density of a default model created later unchanged", later.spectral_density(k), ref, rtol=0, atol=0, **extra)
+    other.dim = int(other.dim)  # re-setting the dimension rebuilds the transform from the model's own settings
+    r.close("spectral_density after re-setting the dimension of the default model unchanged", other.spectral_density(k), ref, rtol=0, atol=0, **extra)
+    a.hankel_kw = None
+    r.eq("hankel_kw = None restores the defaults", dict(a.hankel_kw), ref_kw, **extra)
+    r.close("spectral_density after hankel_kw = None == default model", a.spectral_density(k), ref, rtol=0, atol=0, **extra)
     return r.done(outcome=[cls, d0, d1])
 
 
@@ -223,8 +242,11 @@ def run(chk):
     cases = []
     for cls in cf.SHIPPED:
         for d in cf.valid_dims(cls):
-            for opts in cf.opt_grid(cls, d, tier):
-                for ls, rs in ([(0.5, None), (3.0, 2.0)] if tier != "quick" else [(0.5, None) if (d + len(cases)) % 2 else (3.0, 2.0)]):  # (never len_scale == rescale: a rescaled length of 1 hides scale mistakes)
+            for io, opts in enumerate(cf.opt_grid(cls, d, tier)):
+                # quick: the pair alternates with the dimension, so every optional-argument set sees both pairs
+                # (TPL models with a lower cut-off get both in every dimension: the cut-off is rescaled too)
+                both = tier != "quick" or (cls in cf.TPL and opts.get("len_low", 0.0) > 0 and d != 2)
+                for ls, rs in ([(0.5, None), (3.0, 2.0)] if both else [(0.5, None) if (d + io) % 2 else (3.0, 2.0)]):  # (never len_scale == rescale: a rescaled length of 1 hides scale mistakes)
                     cases.append({"cls": cls, "dim": d, "opts": opts, "len_scale": ls, "rescale": rs})
                 # very large and very small length scales: thresholds on a wave number instead of k * length show here
                 if tier != "quick" or (cls in cf.TPL or cls in ("Gaussian", "Exponential", "Matern", "Integral")) and opts == cf.opt_grid(cls, d, tier)[-1]:
